@@ -39,12 +39,21 @@ def confirm(wt, sid, prop):
     demo_dst = os.path.join(wt, "tests", "mutation_demo.rs")
     if os.path.exists(demo_dst):
         os.unlink(demo_dst)
+    def drop_tables():
+        # the repository's build script regenerates its tables only when they are absent from OUT_DIR
+        sh("rm -rf target/*/build/chess-*/ target/*/.fingerprint/chess-*/", cwd=wt)
+
+    touches_build = any(k in open(patch).read() for k in ("precompile/", "opening_lines.txt", "common/"))
     # unchanged code: demo passes
+    if touches_build:
+        drop_tables()
     shutil.copy(demo_src, demo_dst)
     rc0, out0 = sh("cargo test --offline --test mutation_demo 2>&1 | tail -15", cwd=wt, env=env)
     ok_without = "test result: ok" in out0
     ran.append({"cmd": "cargo test --offline --test mutation_demo   (unchanged code)", "passed": ok_without})
     sh("git apply %s" % patch, cwd=wt)
+    if touches_build:
+        drop_tables()
     rc1, out1 = sh("cargo test --offline --test mutation_demo 2>&1 | tail -25", cwd=wt, env=env)
     fails_with = "test result: FAILED" in out1 or "panicked" in out1
     ran.append({"cmd": "cargo test --offline --test mutation_demo   (with the change)", "failed": fails_with})
